@@ -123,11 +123,13 @@ Definition pre_spawn (s : spc) : bool :=
   match s with SNew | SWait | SStarting | SLaunch | SStartErr => true | _ => false end.
 Definition fresh_sub (s : spc) : bool :=
   match s with SNew | SWait | SStarting | SLaunch => true | _ => false end.
+Definition norunner (r : rphase) : bool := match r with RNone | RGone _ => true | _ => false end.
 Definition canc_ok (run : rphase) (c : canc) : Prop :=
   match k_pc c with
   | CSignal | CWait => run <> RNone
   | CWrite => gone run = true
-  | _ => True
+  | CRmDir | CDelIdx | CEnd => run = RNone \/ gone run = true   (* Cancel is over: no runner *)
+  | CCheck => True
   end.
 
 Record SInv (w : world) : Prop := mkSInv {
@@ -141,6 +143,7 @@ Record SInv (w : world) : Prop := mkSInv {
   i_canc : Forall (canc_ok (w_run w)) (w_cancels w);
   i_sub : pre_spawn (w_sub w) = true -> w_run w = RNone;
   i_spawned : w_sub w = SSpawned -> w_run w <> RNone;
+  i_pid : w_pidset w || norunner (w_run w) || launching (w_sub w) = true;
   i_log : log_ok false (w_log w) = true /\ last_rec h0 (w_log w) = w_file w }.
 
 Lemma sinv0 : SInv world0.
@@ -174,18 +177,20 @@ Proof. intros H ->. vm_compute in H. contradiction. Qed.
 
 Lemma canc_mono r r' cs :
   (r <> RNone -> r' <> RNone) -> (gone r = true -> gone r' = true) ->
+  (r = RNone \/ gone r = true -> r' = RNone \/ gone r' = true) ->
   Forall (canc_ok r) cs -> Forall (canc_ok r') cs.
 Proof.
-  intros H1 H2 H. eapply Forall_impl; [|exact H].
+  intros H1 H2 H3 H. eapply Forall_impl; [|exact H].
   intros c Hc. unfold canc_ok in *. destruct (k_pc c); auto.
 Qed.
 
 Ltac wlog_tac := apply log_snoc; auto; try apply rec_eqb_refl.
-Ltac mono := eapply canc_mono; [| |eassumption]; simpl; intros; try discriminate; try congruence; auto.
+Ltac mono := eapply canc_mono; [| | |eassumption]; simpl; intros; try discriminate; try congruence; auto;
+  try match goal with H : _ \/ _ |- _ => destruct H; try discriminate; try congruence; auto end.
 
 Lemma inv_submit fail w : SInv w -> SInv (step false (ASubmit fail) w).
 Proof.
-  intros [Hr Hn Hs Hp Hz Hc Hsub Hsp [Hl Hlast]].
+  intros [Hr Hn Hs Hp Hz Hc Hsub Hsp Hpd [Hl Hlast]].
   destruct w as [file pidset out sub run child sig wdone cancels restarted dload dir indexed log]; simpl in *.
   destruct sub; simpl; try (constructor; simpl; auto; fail);
     try (specialize (Hsub eq_refl); subst run; destruct (Hn eq_refl) as (Hpid & Hst & Hf)).
@@ -199,10 +204,12 @@ Proof.
     unfold W; simpl. destruct dir; simpl; constructor; simpl; auto; try discriminate; try lia.
     wlog_tac.
   - (* SLaunch *) specialize (Hf eq_refl). rewrite Hf in *.
-    destruct fail; unfold W; simpl; [destruct dir; simpl|]; constructor; simpl; auto; try discriminate; try lia;
-      try (intros _; repeat split; auto; discriminate).
-    + wlog_tac.
-    + mono.
+    destruct fail; unfold W, ctx_cancelled; simpl.
+    + destruct dir; simpl; constructor; simpl; auto; try discriminate; try lia;
+        try (intros _; repeat split; auto; discriminate).
+      wlog_tac.
+    + destruct cancels as [|c0 cs]; simpl; constructor; simpl; auto; try discriminate; try lia;
+        try (intros _; repeat split; auto; discriminate).
   - (* SStartErr *)
     unfold W; simpl. destruct dir; simpl; constructor; simpl; auto; try discriminate; try lia;
       try (intros _; repeat split; auto; discriminate).
@@ -219,7 +226,7 @@ Proof. intro. now apply N.leb_le. Qed.
 
 Lemma inv_runner choice w : SInv w -> SInv (step false (ARunner choice) w).
 Proof.
-  intros [Hr Hn Hs Hp Hz Hc Hsub Hsp [Hl Hlast]].
+  intros [Hr Hn Hs Hp Hz Hc Hsub Hsp Hpd [Hl Hlast]].
   destruct w as [file pidset out sub run child sig wdone cancels restarted dload dir indexed log]; simpl in *.
   assert (Hnps : run <> RNone -> pre_spawn sub = true -> False) by (intros A B; apply A; auto).
   destruct run; simpl; try (constructor; simpl; auto; fail).
@@ -276,7 +283,7 @@ Ltac close Hnps := constructor; simpl; auto; try discriminate; try lia;
 Lemma inv_env a w : (match a with AGrow _ | AExit _ | AReap | ACancelNew _ => True | _ => False end) ->
   SInv w -> SInv (step false a w).
 Proof.
-  intros Ha [Hr Hn Hs Hp Hz Hc Hsub Hsp [Hl Hlast]].
+  intros Ha [Hr Hn Hs Hp Hz Hc Hsub Hsp Hpd [Hl Hlast]].
   destruct w as [file pidset out sub run child sig wdone cancels restarted dload dir indexed log]; simpl in *.
   assert (Hnps : run <> RNone -> pre_spawn sub = true -> False) by (intros A B; apply A; auto).
   destruct a; try contradiction; simpl.
@@ -291,7 +298,7 @@ Qed.
 
 Lemma inv_waiter w : SInv w -> SInv (step false AWaiter w).
 Proof.
-  intros [Hr Hn Hs Hp Hz Hc Hsub Hsp [Hl Hlast]].
+  intros [Hr Hn Hs Hp Hz Hc Hsub Hsp Hpd [Hl Hlast]].
   destruct w as [file pidset out sub run child sig wdone cancels restarted dload dir indexed log]; simpl in *.
   destruct run as [| | | | | | | |[|]]; simpl; try (constructor; simpl; auto; fail).
   destruct sub; simpl; try (constructor; simpl; auto; fail).
@@ -310,7 +317,7 @@ Proof. unfold wf_cancel. destruct (st r =? Succeeded); reflexivity. Qed.
 
 Lemma inv_cancel i w : SInv w -> SInv (step false (ACancel i) w).
 Proof.
-  intros [Hr Hn Hs Hp Hz Hc Hsub Hsp [Hl Hlast]].
+  intros [Hr Hn Hs Hp Hz Hc Hsub Hsp Hpd [Hl Hlast]].
   destruct w as [file pidset out sub run child sig wdone cancels restarted dload dir indexed log]; simpl in *.
   assert (Hnps : run <> RNone -> pre_spawn sub = true -> False) by (intros A B; apply A; auto).
   unfold step_cancel; simpl.
@@ -319,21 +326,26 @@ Proof.
   destruct Hr as (-> & ->).
   unfold canc_ok in Hci.
   destruct c as [kind pc]; simpl in *.
-  assert (Hafter : forall r, canc_ok r (mkCanc kind (after_cancel kind)))
-    by (intro r; unfold canc_ok, after_cancel; simpl; destruct (kind =? 0); simpl; exact I).
+  assert (Hafter : forall r, r = RNone \/ gone r = true -> canc_ok r (mkCanc kind (after_cancel kind)))
+    by (intros r Hr'; unfold canc_ok, after_cancel; simpl; destruct (kind =? 0); simpl; exact Hr').
+  assert (Hnr : norunner run = true -> run = RNone \/ gone run = true)
+    by (destruct run; simpl; intro; try discriminate; auto).
   destruct pc; simpl.
   - (* CCheck *)
-    destruct pidset eqn:Hpid; simpl; constructor; simpl; auto; apply Forall_set_nth; auto.
-    unfold canc_ok; simpl. intro E. destruct (Hn E) as (F & _). discriminate.
+    destruct (launching sub) eqn:Hla; simpl; [constructor; simpl; auto; rewrite Hla, ?orb_true_r; auto|].
+    destruct pidset eqn:Hpid; simpl; constructor; simpl; auto; try (rewrite Hla; auto); apply Forall_set_nth; auto.
+    + unfold canc_ok; simpl. intro E. destruct (Hn E) as (F & _). discriminate.
+    + apply Hafter, Hnr. simpl in Hpd. rewrite ?Hla, ?orb_false_r in Hpd. exact Hpd.
   - (* CSignal *)
     destruct run as [| | | | | | | |[|]]; simpl; try contradiction.
-    all: try (close Hnps; apply Forall_set_nth; auto; try (unfold canc_ok; simpl; discriminate); try mono; fail).
+    all: try (close Hnps; apply Forall_set_nth; auto; try (unfold canc_ok; simpl; discriminate);
+              try (apply Hafter; simpl; auto); try mono; fail).
   - (* CWait *)
     destruct run as [| | | | | | | |b]; simpl; try (constructor; simpl; auto; fail).
     close Hnps. apply Forall_set_nth; auto. reflexivity.
   - (* CWrite *)
     destruct run as [| | | | | | | |b]; simpl in Hci; try discriminate.
-    unfold W; simpl. destruct dir; simpl; close Hnps; try (apply Forall_set_nth; auto).
+    unfold W; simpl. destruct dir; simpl; close Hnps; try (apply Forall_set_nth; auto; apply Hafter; simpl; auto).
     + now rewrite sz_wf_cancel.
     + wlog_tac. apply allowed_cancel.
   - (* CRmDir *) close Hnps. apply Forall_set_nth; auto.
@@ -429,7 +441,7 @@ Proof.
   unfold RInv. intro H.
   destruct w as [file pidset out sub run child sig wdone cancels restarted dload dir indexed log]; simpl in *.
   destruct a; simpl.
-  - destruct sub; try destruct fail; simpl; unfold W; simpl; destruct dir; simpl; auto.
+  - destruct sub; try destruct fail; simpl; unfold W, ctx_cancelled; simpl; destruct dir; simpl; auto; destruct cancels; simpl; auto.
   - destruct run; simpl; auto; unfold W; simpl;
       repeat match goal with |- context [if ?b then _ else _] => destruct b; simpl; auto end;
       try (destruct child; simpl; auto).
@@ -445,7 +457,7 @@ Proof.
     assert (Hafter : forall d x, rel_ok d x (mkCanc kind (after_cancel kind))).
     { intros d x. unfold rel_ok, after_cancel; simpl. destruct (kind =? 0) eqn:E; simpl; auto. left. lia. }
     destruct pc; simpl; auto.
-    + destruct pidset; simpl; apply Forall_set_nth; auto; exact I.
+    + destruct (launching sub); simpl; auto. destruct pidset; simpl; apply Forall_set_nth; auto; exact I.
     + destruct run as [| | | | | | | |[|]]; simpl; apply Forall_set_nth; auto; exact I.
     + destruct restarted; simpl; [apply Forall_set_nth; auto; exact I|].
       destruct run; simpl; auto; apply Forall_set_nth; auto; exact I.
@@ -481,7 +493,7 @@ Lemma gone_step p a w : (w_dir w = false -> w_dir (step p a w) = false) /\
 Proof.
   destruct w as [file pidset out sub run child sig wdone cancels restarted dload dir indexed log]; simpl.
   destruct a; simpl.
-  - destruct sub; try destruct fail; simpl; unfold W; simpl; destruct dir; simpl; auto.
+  - destruct sub; try destruct fail; simpl; unfold W, ctx_cancelled; simpl; destruct dir; simpl; auto; destruct cancels; simpl; auto.
   - destruct run; simpl; auto; unfold W; simpl;
       repeat match goal with |- context [if ?b then _ else _] => destruct b; simpl; auto end;
       try (destruct child; simpl; auto).
@@ -493,7 +505,7 @@ Proof.
   - destruct indexed; simpl; auto.
   - unfold step_cancel; simpl. destruct (nth_error cancels i) as [[kind pc]|]; simpl; auto.
     destruct pc; simpl; auto.
-    + destruct pidset; simpl; auto.
+    + destruct (launching sub); simpl; auto. destruct pidset; simpl; auto.
     + destruct run as [| | | | | | | |[|]]; simpl; auto.
     + destruct restarted; simpl; auto. destruct run; simpl; auto.
     + unfold W; simpl. destruct dir; simpl; auto.
@@ -512,7 +524,7 @@ Proof.
   rewrite C. clear - Hd.
   destruct w as [file pidset out sub run child sig wdone cancels restarted dload dir indexed log]; simpl in *. subst dir.
   destruct a; simpl; auto.
-  - destruct sub; try destruct fail; simpl; auto.
+  - destruct sub; try destruct fail; simpl; auto; unfold ctx_cancelled; simpl; destruct cancels; simpl; auto.
   - destruct run; simpl; auto;
       repeat match goal with |- context [if ?b then _ else _] => destruct b; simpl; auto end;
       try (destruct child; simpl; auto).
@@ -524,7 +536,7 @@ Proof.
   - destruct indexed; simpl; auto.
   - unfold step_cancel; simpl. destruct (nth_error cancels i) as [[kind pc]|]; simpl; auto.
     destruct pc; simpl; auto.
-    + destruct pidset; simpl; auto.
+    + destruct (launching sub); simpl; auto. destruct pidset; simpl; auto.
     + destruct run as [| | | | | | | |[|]]; simpl; auto.
     + destruct restarted; simpl; auto. destruct run; simpl; auto.
   - destruct dload as [s|]; simpl; auto. destruct (s =? Pending); simpl; auto.
@@ -666,8 +678,10 @@ Proof.
   unfold child_ok.
   destruct w as [file pidset out sub run child sig wdone cancels restarted dload dir indexed log]; simpl.
   intros (H1 & H2). destruct a; simpl.
-  - destruct sub; try destruct fail; simpl; unfold W; simpl; try destruct dir; simpl; try (split; assumption); try kfin H1 H2.
-    all: exfalso; specialize (H2 eq_refl); congruence.
+  - destruct sub; try destruct fail; simpl; unfold W, ctx_cancelled; simpl; try destruct dir; simpl; try (split; assumption); try kfin H1 H2;
+      try (destruct cancels; simpl; try kfin H1 H2).
+    all: try (exfalso; specialize (H2 eq_refl); congruence).
+    all: try (split; [exact H1|intro B; discriminate B || (apply H2; reflexivity)]).
   - destruct run; simpl; try (split; assumption); unfold W; simpl;
       repeat match goal with |- context [if ?b then _ else _] => destruct b; simpl end;
       try (destruct child; simpl); try (split; assumption); kfin H1 H2.
@@ -679,7 +693,7 @@ Proof.
   - destruct indexed; simpl; split; assumption.
   - unfold step_cancel; simpl. destruct (nth_error cancels i) as [[kind pc]|]; simpl; try (split; assumption).
     destruct pc; simpl; try (split; assumption).
-    + destruct pidset; simpl; split; assumption.
+    + destruct (launching sub); simpl; try (split; assumption). destruct pidset; simpl; split; assumption.
     + destruct run as [| | | | | | | |[|]]; simpl; try (split; assumption); kfin H1 H2.
     + destruct restarted; simpl; try (split; assumption). destruct run; simpl; split; assumption.
     + unfold W; simpl. destruct dir; simpl; split; assumption.
@@ -709,7 +723,7 @@ Proof.
   - destruct indexed; simpl; auto.
   - unfold step_cancel; simpl. destruct (nth_error cancels i) as [[kind pc]|]; simpl; auto.
     destruct pc; simpl; auto.
-    + destruct pidset; simpl; auto.
+    + destruct (launching sub); simpl; auto. destruct pidset; simpl; auto.
     + destruct b; simpl; auto.
     + destruct restarted; simpl; auto.
     + unfold W; simpl. destruct dir; simpl; auto.
@@ -760,3 +774,61 @@ Example ignoring_command_is_killed :
   let w2 := run false [ARunner 0; ACancel 0%nat; ACancel 0%nat] w in
   w_run w2 = RGone false /\ w_child w2 = CDone false /\ st (w_file w2) = Canceled.
 Proof. vm_compute. repeat split; reflexivity. Qed.
+
+Lemma set_nth_nonempty {A} i (x : A) l : l <> [] -> set_nth i x l <> [].
+Proof. destruct l, i; simpl; congruence. Qed.
+
+(* a unit that has been cancelled before its runner was launched is never launched (no restart) *)
+Lemma rnone_stays p a w : is_restart a = false ->
+  w_run w = RNone -> w_cancels w <> [] ->
+  w_run (step p a w) = RNone /\ w_cancels (step p a w) <> [].
+Proof.
+  destruct w as [file pidset out sub run child sig wdone cancels restarted dload dir indexed log]; simpl.
+  intros Ha -> Hc. destruct a; try discriminate; simpl.
+  - destruct sub; try destruct fail; simpl; unfold W, ctx_cancelled; simpl; try destruct dir; simpl; auto;
+      destruct cancels; simpl; auto; congruence.
+  - auto.
+  - destruct child; simpl; auto.
+  - destruct child; simpl; auto.
+  - auto.
+  - auto.
+  - destruct indexed; simpl; auto. split; auto. destruct cancels; simpl; congruence.
+  - unfold step_cancel; simpl. destruct (nth_error cancels i) as [[kind pc]|]; simpl; auto.
+    destruct pc; simpl; auto; try (split; auto; apply set_nth_nonempty; auto; fail).
+    + destruct (launching sub); simpl; auto. destruct pidset; simpl; split; auto; apply set_nth_nonempty; auto.
+    + destruct restarted; simpl; split; auto; apply set_nth_nonempty; auto.
+    + unfold W; simpl. destruct dir; simpl; split; auto; apply set_nth_nonempty; auto.
+Qed.
+
+Lemma rnone_run p sched : forall w, no_restart sched = true ->
+  w_run w = RNone -> w_cancels w <> [] -> w_run (run p sched w) = RNone.
+Proof.
+  unfold run, no_restart. induction sched as [|a s IH]; intros w Hn Hr Hc; simpl; auto.
+  simpl in Hn. apply andb_true_iff in Hn as (Ha & Hs).
+  assert (Ha' : is_restart a = false) by (destruct (is_restart a); auto; discriminate).
+  destruct (rnone_stays p a w Ha' Hr Hc). apply IH; auto.
+Qed.
+
+(* EVERY Cancel / Release that has done its part (no daemon restart) leaves the unit without a
+   runner, for good: either no runner was ever launched and none will be, or it is gone - and so is
+   the command *)
+Theorem cancel_always_stops_process sched i c : no_restart sched = true ->
+  nth_error (w_cancels (run false sched world0)) i = Some c ->
+  (k_pc c = CRmDir \/ k_pc c = CDelIdx \/ k_pc c = CEnd) ->
+  forall sched', no_restart sched' = true ->
+  let w' := run false sched' (run false sched world0) in
+  (w_run w' = RNone \/ gone (w_run w') = true) /\ w_child w' <> CRun.
+Proof.
+  intros Hn Hi Hpc sched' Hn' w'.
+  pose proof (i_canc _ (run_sinv sched world0 Hn sinv0)) as Hc.
+  rewrite Forall_forall in Hc. specialize (Hc c (nth_error_In _ _ Hi)).
+  unfold canc_ok in Hc.
+  assert (Hst : w_run (run false sched world0) = RNone \/ gone (w_run (run false sched world0)) = true)
+    by (destruct Hpc as [E|[E|E]]; rewrite E in Hc; exact Hc).
+  assert (Hk : child_ok (run false sched world0)) by (apply child_run; split; intro A; [discriminate|reflexivity]).
+  assert (Hk' : child_ok w') by (apply child_run; exact Hk).
+  assert (Hne : w_cancels (run false sched world0) <> []) by (intro E; rewrite E in Hi; destruct i; discriminate).
+  assert (Hfin : w_run w' = RNone \/ gone (w_run w') = true).
+  { destruct Hst as [E|E]; [left; apply rnone_run; auto|right; apply gone_run; auto]. }
+  split; auto. intro Ec. destruct Hk' as (Hk1 & _). destruct (Hk1 Ec) as [A|[A|A]]; rewrite A in Hfin; destruct Hfin; discriminate.
+Qed.
